@@ -110,6 +110,8 @@ package datasource
 //@ func FlowRuleJsonArrayParser(src) (r, err)
 //@   props C18
 //@   panics never
+//@   ensures[every-non-empty-payload-reaches-the-decoder] len(src) > 0 ==> gJsonN == old(gJsonN) + 1
+//@   ensures[what-the-decoder-accepts-is-accepted] len(src) > 0 && gJsonErr == nil ==> err == nil && r != nil
 //@   ensures[undecodable-payload-rejected] gJsonN > old(gJsonN) && gJsonErr != nil ==> err != nil && r == nil
 //@   ensures[decoded-at-most-once] gJsonN <= old(gJsonN) + 1
 //@   ensures[empty-payload-is-nil] len(src) == 0 ==> r == nil && err == nil
@@ -117,6 +119,8 @@ package datasource
 //@ func IsolationRuleJsonArrayParser(src) (r, err)
 //@   props C18
 //@   panics never
+//@   ensures[every-non-empty-payload-reaches-the-decoder] len(src) > 0 ==> gJsonN == old(gJsonN) + 1
+//@   ensures[what-the-decoder-accepts-is-accepted] len(src) > 0 && gJsonErr == nil ==> err == nil && r != nil
 //@   ensures[undecodable-payload-rejected] gJsonN > old(gJsonN) && gJsonErr != nil ==> err != nil && r == nil
 //@   ensures[decoded-at-most-once] gJsonN <= old(gJsonN) + 1
 //@   ensures[empty-payload-is-nil] len(src) == 0 ==> r == nil && err == nil
@@ -124,6 +128,8 @@ package datasource
 //@ func SystemRuleJsonArrayParser(src) (r, err)
 //@   props C18
 //@   panics never
+//@   ensures[every-non-empty-payload-reaches-the-decoder] len(src) > 0 ==> gJsonN == old(gJsonN) + 1
+//@   ensures[what-the-decoder-accepts-is-accepted] len(src) > 0 && gJsonErr == nil ==> err == nil && r != nil
 //@   ensures[undecodable-payload-rejected] gJsonN > old(gJsonN) && gJsonErr != nil ==> err != nil && r == nil
 //@   ensures[decoded-at-most-once] gJsonN <= old(gJsonN) + 1
 //@   ensures[empty-payload-is-nil] len(src) == 0 ==> r == nil && err == nil
@@ -131,6 +137,8 @@ package datasource
 //@ func CircuitBreakerRuleJsonArrayParser(src) (r, err)
 //@   props C18
 //@   panics never
+//@   ensures[every-non-empty-payload-reaches-the-decoder] len(src) > 0 ==> gJsonN == old(gJsonN) + 1
+//@   ensures[what-the-decoder-accepts-is-accepted] len(src) > 0 && gJsonErr == nil ==> err == nil && r != nil
 //@   ensures[undecodable-payload-rejected] gJsonN > old(gJsonN) && gJsonErr != nil ==> err != nil && r == nil
 //@   ensures[decoded-at-most-once] gJsonN <= old(gJsonN) + 1
 //@   ensures[empty-payload-is-nil] len(src) == 0 ==> r == nil && err == nil
@@ -138,6 +146,7 @@ package datasource
 //@ func HotSpotParamRuleJsonArrayParser(src) (r, err)
 //@   props C18
 //@   panics never
+//@   ensures[every-non-empty-payload-reaches-the-decoder] len(src) > 0 ==> gJsonN == old(gJsonN) + 1
 //@   ensures[undecodable-payload-rejected] gJsonN > old(gJsonN) && gJsonErr != nil ==> err != nil && r == nil
 //@   ensures[decoded-at-most-once] gJsonN <= old(gJsonN) + 1
 //@   replay ds_parser_null_element
